@@ -12,7 +12,6 @@ use std::{mem, str};
 
 use datasize::data_size;
 use futures::channel::oneshot;
-use futures::executor::block_on;
 use inner_locustdb::meta_store::PartitionMetadata;
 use locustdb_serialization::event_buffer::{ColumnBuffer, ColumnData, EventBuffer, TableBuffer};
 use threadpool::ThreadPool;
@@ -448,6 +447,17 @@ impl InnerLocustDB {
         &self,
         table: &str,
     ) -> Result<oneshot::Receiver<Result<QueryOutput, QueryError>>, QueryError> {
+        let (query_task, receiver) = self.column_names_task(table)?;
+        self.schedule(query_task);
+        Ok(receiver)
+    }
+
+    /// The task that reads the column names of `table` from its catalogue table.
+    #[allow(clippy::type_complexity)]
+    fn column_names_task(
+        &self,
+        table: &str,
+    ) -> Result<(QueryTask, oneshot::Receiver<Result<QueryOutput, QueryError>>), QueryError> {
         let meta_table = format!("_meta_columns_{}", table);
         let query = Query::read_column(&meta_table, "column_name");
         let data = self
@@ -476,13 +486,19 @@ impl InnerLocustDB {
             None,
         )
         .unwrap();
-        self.schedule(query_task);
-        Ok(receiver)
+        Ok((query_task, receiver))
     }
 
     fn query_column_names(&self, table: &str) -> Result<Vec<String>, QueryError> {
-        let receiver = self.schedule_query_column_names(table)?;
-        let mut result = block_on(receiver).unwrap()?;
+        // Runs on the calling thread. The callers hold the ingestion lock and can themselves be
+        // tasks of the worker pool (CSV ingestion): waiting here for a free worker waits for ever
+        // once every worker is in that position.
+        let (query_task, mut receiver) = self.column_names_task(table)?;
+        query_task.execute();
+        let mut result = match receiver.try_recv() {
+            Ok(Some(result)) => result?,
+            _ => return Err(fatal!("Column name query for {} did not complete", table)),
+        };
         assert!(result.columns.len() == 1, "Expected 1 column");
         let column_names = match result.columns.pop().unwrap() {
             (_, BasicTypeColumn::String(names)) => Ok(names.into_iter().collect()),
